@@ -9,6 +9,8 @@ CONSTANTS
   SaveLocks = TRUE
   TruncFirst = FALSE
   UnlinkLockWhenFinal = FALSE
+  Kinds = {"inc", "blind"}
+  KeepAbsentFields = FALSE
   StatBeforeLock = FALSE
   FreshUpdates = FALSE
   Reread = TRUE
